@@ -1,6 +1,7 @@
 """Abstract relationship fields, random layouts, corruptions (C14/C15)."""
 OPS = ['<<', '<=', '=', '>=', '>>', '<', '>']
-NAMES = ['python', 'libc6', 'g++', 'lib-x.y', 'a', 'foo:any', 'libstdc++6', 'python3.11', 'x-y+z', 'b:native', 'ab']
+NAMES = ['python', 'libc6', 'g++', 'lib-x.y', 'a', 'foo:any', 'libstdc++6', 'python3.11', 'x-y+z', 'b:native', 'ab',
+         'gcc:amd64', 'python3:arm64', 'libfoo:kfreebsd-amd64', 'x:i386']
 ARCHS = ['i386', '!i386', 'linux-any', 'any-amd64', '!hurd-i386', 'amd64']
 WS = [' ', '  ', '\t', '\n', ' \n ', '\n ', '']
 VERS = ['1.0', '2:1.0~rc1-2', '0', '1-1', '1.2.3+b1', '7~', '1:0', '3.0-0ubuntu1', '10', '1.0-1~bpo',
